@@ -438,6 +438,21 @@ impl<S: Service> World<S> {
     }
 
     fn exec_inner(&mut self, st: &Step, rec: &mut Rec) -> bool {
+        if st.a == "LoanResponseAny" {
+            // loan through the active request of server s that has the fewest outstanding loans
+            let pick = self
+                .areq
+                .keys()
+                .filter(|k| k.0 == st.s)
+                .min_by_key(|k| self.rloans.keys().filter(|l| (l.0, l.1, l.2) == **k).count())
+                .copied();
+            let Some((s, c, n)) = pick else { return false };
+            let st2 = Step::new("LoanResponse", c, s, n, 0, 0);
+            rec.a = st2.a.clone();
+            rec.c = c;
+            rec.n = n;
+            return self.exec_inner(&st2, rec);
+        }
         match st.a.as_str() {
             "CreateClient" => {
                 if self.used_c.contains_key(&st.c) || st.c == 0 || st.c > self.cfg.nc {
